@@ -7,7 +7,7 @@ import numpy as np
 from common import q, lst, natlit, zlit, blit, optlit
 import rung_util as U
 
-IMPORTS = "From Verif Require Import model.Base model.Rung.\nOpen Scope Q_scope.\n"
+IMPORTS = "From Coq Require Import Strings.String.\nFrom Verif Require Import model.Base model.Rung.\nOpen Scope Q_scope.\n"
 
 PRELUDE = r"""
 (* Boundary class: 8 (n + 1) half-ulps relative to the largest |metric| in a rung of n entries (round-off of Rung.quantile) *)
@@ -71,10 +71,12 @@ Definition is_boundary (cfg : config) (st : state) (t r : Z) (m : Q) : bool :=
       end
   end.
 
-Fixpoint run_obs (cfg : config) (st : state) (evs : list (event * outcome)) : option state :=
+(* None = the scheduler went through a dill round trip at this point *)
+Fixpoint run_obs (cfg : config) (st : state) (evs : list (option event * outcome)) : option state :=
   match evs with
   | [] => Some st
-  | (ev, obs) :: rest =>
+  | (None, _) :: rest => run_obs cfg (restore_state cfg st) rest
+  | (Some ev, obs) :: rest =>
       let '(st1, out) := step cfg st ev in
       if outcome_eqb out obs then run_obs cfg st1 rest
       else match ev with
@@ -96,13 +98,20 @@ Definition model_levels (p : lv_params) (max_t : Z) : option (list Z) :=
 Definition chk_levels (c : levels_case) : bool :=
   let '(p, max_t, impl) := c in opt_eqb (list_eqb Z.eqb) (model_levels p max_t) impl.
 
-(* (is_min, max_t, per_bracket, rush), construction parameters (None only for a rounding Boundary of a non-integer
+(* maximum resource: (max_t argument, max_resource_attr, configuration space with Some constant / None hyperparameter) *)
+Definition maxt_in := (option Z * option string * cspace)%type.
+Definition model_max_t (i : maxt_in) : option Z := let '(arg, attr, cs) := i in infer_max_resource_level arg attr cs.
+Definition maxt_case := (maxt_in * option Z)%type.
+Definition chk_maxt (c : maxt_case) : bool := opt_eqb Z.eqb (model_max_t (fst c)) (snd c).
+
+(* (is_min, per_bracket, rush), maximum resource inputs (the model infers max_t itself), construction parameters (None only for a rounding Boundary of a non-integer
    reduction factor: then the implementation's levels are used), implementation's rung levels, brackets, observed events,
    information_for_rungs() at the end (level, entries, prom_quant) *)
-Definition seq_case := ((bool * Z * bool * option Z) * option lv_params * list Z * nat * list (event * outcome)
-                        * list (Z * nat * Q))%type.
+Definition seq_case := ((bool * bool * option Z) * maxt_in * option lv_params * list Z * nat
+                        * list (option event * outcome) * list (Z * nat * Q))%type.
 Definition chk_seq (c : seq_case) : bool :=
-  let '((is_min, max_t, pb, rush), params, levels, brackets, evs, info) := c in
+  let '((is_min, pb, rush), mt, params, levels, brackets, evs, info) := c in
+  match model_max_t mt with None => false | Some max_t =>
   let cfg := {| c_mode := md_of is_min; c_max_t := max_t; c_per_bracket := pb; c_rush := rush |} in
   match params with
   | Some p => opt_eqb (list_eqb Z.eqb) (model_levels p max_t) (Some levels)
@@ -118,7 +127,7 @@ Definition chk_seq (c : seq_case) : bool :=
                                Qle_bool (Qabs' (snd a - snd b)) (1 # 1000000000000))
                    (map (fun rg => (r_level rg, length (r_data rg), r_quant rg)) (rs_rungs sys)) info
       end
-  end.
+  end end.
 """
 
 
@@ -236,6 +245,10 @@ class ConstructorRaised(Exception):
 EXC = {"KeyError": "EKeyTrial", "AssertExists": "EAssertExists", "AssertResource": "EAssertResource"}
 
 
+class Box:
+    pass
+
+
 def run_sequence(ctx, spec, events=None):
     """Runs the script on the real scheduler. Returns dict(events=[...concrete events with observed outcome...], ...).
     If [events] is given (replay) it is executed literally."""
@@ -251,9 +264,19 @@ def run_sequence(ctx, spec, events=None):
     except Exception as e:  # every generated configuration is valid
         raise ConstructorRaised("%s: %s" % (type(e).__name__, str(e)[:200]))
     levels = list(sch.rung_levels)
+    impl_max_t = sch.max_t
     nb = sch.num_brackets
-    oh = U.OneHotBrackets(nb)
-    sch.bracket_distribution = oh
+    S = Box()
+    S.sch = sch
+    S.oh = U.OneHotBrackets(nb)
+    sch.bracket_distribution = S.oh
+    del sch
+
+    def do_restore():
+        """what Tuner.save / load do to the scheduler"""
+        import dill
+        S.sch = dill.loads(dill.dumps(S.sch))
+        S.oh = S.sch.bracket_distribution
     # the reference maximum resource comes from the documented rule, never from scheduler.max_t
     max_t = spec["max_t"]
     if "max_t_via" in spec:
@@ -332,9 +355,9 @@ def run_sequence(ctx, spec, events=None):
     running, cursor, next_id = [], {}, 0
 
     def do_suggest(tid, b):
-        oh.bracket = b
+        S.oh.bracket = b
         try:
-            sug = sch.suggest(tid)
+            sug = S.sch.suggest(tid)
             trials[tid] = U.mk_trial(tid, sug.config)
             bracket_of[tid] = b
             last_dec[tid] = "CONTINUE"
@@ -345,7 +368,7 @@ def run_sequence(ctx, spec, events=None):
     def do_report(tid, r, m):
         tr = trials.get(tid) or U.mk_trial(tid, {"x": 0.5})
         try:
-            dec = sch.on_trial_result(tr, {"epoch": r, "m": m})
+            dec = S.sch.on_trial_result(tr, {"epoch": r, "m": m})
         except KeyError:
             return "KeyError"
         except AssertionError:
@@ -373,21 +396,24 @@ def run_sequence(ctx, spec, events=None):
                 o = do_suggest(ev["t"], ev["b"])
             elif k == "report":
                 o = do_report(ev["t"], ev["r"], ev["m"])
+            elif k == "restore":
+                do_restore()
+                o = "Done"
             elif k == "remove":
-                sch.on_trial_remove(trials.get(ev["t"]) or U.mk_trial(ev["t"], {"x": 0.5}))
+                S.sch.on_trial_remove(trials.get(ev["t"]) or U.mk_trial(ev["t"], {"x": 0.5}))
                 if last_dec.get(ev["t"]) == "CONTINUE":
                     last_dec[ev["t"]] = "PAUSE"
                 o = "Done"
             elif k == "complete":
                 try:
-                    sch.on_trial_complete(trials.get(ev["t"]) or U.mk_trial(ev["t"], {"x": 0.5}), {"epoch": ev.get("r", 1), "m": 0.0})
+                    S.sch.on_trial_complete(trials.get(ev["t"]) or U.mk_trial(ev["t"], {"x": 0.5}), {"epoch": ev.get("r", 1), "m": 0.0})
                     if ev["t"] in last_dec:
                         last_dec[ev["t"]] = "STOP"
                     o = "Done"
                 except KeyError:
                     o = "KeyError"
             else:
-                sch.on_trial_error(trials.get(ev["t"]) or U.mk_trial(ev["t"], {"x": 0.5}))
+                S.sch.on_trial_error(trials.get(ev["t"]) or U.mk_trial(ev["t"], {"x": 0.5}))
                 if ev["t"] in last_dec:
                     last_dec[ev["t"]] = "STOP"
                 o = "Done"
@@ -406,7 +432,11 @@ def run_sequence(ctx, spec, events=None):
         for _ in range(spec["concurrent"]):
             start_new()
         zombies = []  # stopped / removed trials that may still send late reports
-        for _ in range(spec["steps"]):
+        restore_at = set(rng.sample(range(spec["steps"]), rng.choice([0, 0, 1, 1, 2])))
+        for step in range(spec["steps"]):
+            if step in restore_at:
+                do_restore()
+                emit(dict(op="restore"), "Done")
             x = rng.random()
             if x < 0.02 and zombies:
                 tid = rng.choice(zombies)
@@ -420,7 +450,7 @@ def run_sequence(ctx, spec, events=None):
                 continue
             if x < 0.035 and running:
                 tid = rng.choice(running)
-                emit(dict(op="suggest", t=tid, b=0), do_suggest_dup(sch, oh, tid))
+                emit(dict(op="suggest", t=tid, b=0), do_suggest_dup(S.sch, S.oh, tid))
                 continue
             if x < 0.045 and running:
                 tid = rng.choice(running)
@@ -436,14 +466,14 @@ def run_sequence(ctx, spec, events=None):
                 k = rng.choice(["remove", "complete", "error"])
                 ev = dict(op=k, t=tid)
                 if k == "remove":
-                    sch.on_trial_remove(trials[tid])
+                    S.sch.on_trial_remove(trials[tid])
                     last_dec[tid] = "PAUSE"
                 elif k == "complete":
                     ev["r"] = max(cursor[tid], 1)
-                    sch.on_trial_complete(trials[tid], {"epoch": ev["r"], "m": 0.0})
+                    S.sch.on_trial_complete(trials[tid], {"epoch": ev["r"], "m": 0.0})
                     last_dec[tid] = "STOP"
                 else:
-                    sch.on_trial_error(trials[tid])
+                    S.sch.on_trial_error(trials[tid])
                     last_dec[tid] = "STOP"
                 emit(ev, "Done")
                 running.remove(tid)
@@ -461,13 +491,13 @@ def run_sequence(ctx, spec, events=None):
             if dec != "CONTINUE":
                 running.remove(tid)
                 if rng.random() < 0.8:
-                    sch.on_trial_remove(trials[tid])  # what the Tuner does after STOP
+                    S.sch.on_trial_remove(trials[tid])  # what the Tuner does after STOP
                     emit(dict(op="remove", t=tid), "Done")
                 zombies.append(tid)
                 if next_id < spec["total"]:
                     start_new()
 
-    info = [(int(a), int(b), float(c)) for a, b, c in sch.terminator.information_for_rungs()]
+    info = [(int(a), int(b), float(c)) for a, b, c in S.sch.terminator.information_for_rungs()]
     # enter-once / own-levels-only, observed through the public rung sizes of system 0
     for lv, cnt, pq in info:
         if lv in quant and abs(pq - quant[lv]) > 1e-12:
@@ -477,7 +507,7 @@ def run_sequence(ctx, spec, events=None):
         if mine != cnt:
             violations.append(("rung level %d of system 0 holds %d entries, but %d distinct trials reported at it as "
                                "one of their own rung levels" % (lv, cnt, mine), "rung_size_mismatch"))
-    return dict(levels=impl_levels, num_brackets=nb, events=out_events, info=info, violations=violations,
+    return dict(levels=impl_levels, impl_max_t=impl_max_t, num_brackets=nb, events=out_events, info=info, violations=violations,
                 n_boundary=n_boundary, n_rung_decisions=n_decisions_at_rung, n_nontrivial=n_nontrivial)
 
 
@@ -507,13 +537,27 @@ def event_term(ev):
     return {"remove": "EvRemove", "complete": "EvComplete", "error": "EvError"}[k] + " " + zlit(ev["t"])
 
 
+def ev_opt_term(ev):
+    return "None" if ev["op"] == "restore" else "Some (%s)" % event_term(ev)
+
+
+def strlit(x):
+    return '"%s"%%string' % x
+
+
+def maxt_term(arg, attr, consts, hps):
+    cs = ["(%s, Some %s)" % (strlit(k), zlit(v)) for k, v in consts.items()] + ["(%s, None)" % strlit(k) for k in hps]
+    return "(%s, %s, %s)" % (optlit(arg, zlit), optlit(attr, strlit), lst(cs))
+
+
 def seq_term(spec, res):
     nthr = spec.get("num_threshold_candidates", 0) if spec["type"] == "rush_stopping" else None
-    cfg = "(%s, %s, %s, %s)" % (blit(spec["mode"] == "min"), zlit(spec["max_t"]), blit(spec.get("per_bracket", False)),
-                                optlit(nthr, zlit))
-    evs = lst(["(%s, %s)" % (event_term(e), outcome_term(e["outcome"])) for e in res["events"]])
+    cfg = "(%s, %s, %s)" % (blit(spec["mode"] == "min"), blit(spec.get("per_bracket", False)), optlit(nthr, zlit))
+    evs = lst(["(%s, %s)" % (ev_opt_term(e), outcome_term(e["outcome"])) for e in res["events"]])
+    mt = maxt_term(spec.get("max_t_arg", spec["max_t"]) if "max_t_via" in spec else spec["max_t"], spec.get("max_resource_attr"),
+                   spec.get("space_consts", {}), ["x"])
     info = lst(["(%s, %s, %s)" % (zlit(a), natlit(b), q(c)) for a, b, c in res["info"]])
-    return "((%s, %s, %s, %s, %s, %s) : seq_case)" % (cfg, optlit(params_of(spec), params_term), lst([zlit(x) for x in res["levels"]]),
+    return "((%s, %s, %s, %s, %s, %s, %s) : seq_case)" % (cfg, mt, optlit(params_of(spec), params_term), lst([zlit(x) for x in res["levels"]]),
                                                     natlit(spec["brackets"]), evs, info)
 
 
@@ -606,6 +650,47 @@ def run_levels_cases(ctx, cases_in):
                           broken="correspondence chk_levels (model/Rung.v sh_rung_levels)")
 
 
+# ------------------------------------------------------------------------------------------------
+# unit step: maximum resource inferred by the constructor (public attribute scheduler.max_t)
+# ------------------------------------------------------------------------------------------------
+def gen_maxt_case(rng):
+    keys = ["epochs", "max_t", "max_epochs", "num_steps", "steps"]
+    consts = {k: rng.choice([3, 9, 16, 27, 81]) for k in keys if rng.random() < 0.4}
+    hps = [k for k in keys if k not in consts and rng.random() < 0.2]  # default-named hyperparameters are not constants
+    return dict(kind="maxt", arg=rng.choice([None, None, None, 5, 50]), attr=rng.choice([None, None] + keys), consts=consts, hps=hps)
+
+
+def run_maxt_cases(ctx, cases_in):
+    from syne_tune.optimizer.schedulers.fifo import FIFOScheduler
+    from syne_tune.config_space import uniform, randint
+    U.quiet()
+    terms = []
+    for c in cases_in:
+        space = {"x": uniform(0, 1)}
+        space.update(c["consts"])
+        space.update({k: randint(1, 100) for k in c["hps"]})
+        kw = {}
+        if c["arg"] is not None:
+            kw["max_t"] = c["arg"]
+        if c["attr"] is not None:
+            kw["max_resource_attr"] = c["attr"]
+        impl = FIFOScheduler(space, searcher="random", metric="m", mode="min", random_seed=0, **kw).max_t
+        impl = None if impl is None else int(impl)
+        want = U.documented_max_t(c["arg"], c["attr"], c["consts"])
+        ctx.count(("maxt", c), nontrivial=c["arg"] is None and len(c["consts"]) >= 2)
+        ctx.h("maxt_source", "arg" if c["arg"] is not None else ("attr" if c["attr"] in c["consts"] else
+                                                                  ("default_key" if want is not None else "none")))
+        if impl != want:
+            ctx.violation("property", "scheduler.max_t = %r, the documented rule (max_t argument, then config_space[max_resource_attr], "
+                          "then epochs / max_t / max_epochs) gives %r for max_t=%r, max_resource_attr=%r, constants %r" % (
+                              impl, want, c["arg"], c["attr"], c["consts"]), case=c, signature=dict(check="max_t"))
+        terms.append("((%s, %s) : maxt_case)" % (maxt_term(c["arg"], c["attr"], c["consts"], ["x"] + c["hps"]), optlit(impl, zlit)))
+    if terms:
+        for i in ctx.coq_bad_cases("maxt", IMPORTS, PRELUDE, "chk_maxt", terms, shard=300):
+            ctx.violation("correspondence", "model infer_max_resource_level differs from scheduler.max_t", case=cases_in[i],
+                          failing_input=False, broken="correspondence chk_maxt (model/Rung.v infer_max_resource_level)")
+
+
 def run(ctx, replay=None):
     ctx.rule = ("cases: (a) Rung.add/quantile on metric lists of length 0..60 (grids with ties, duplicates, signed floats), "
                 "both modes, q = level/next level; non-trivial = >= 3 entries with >= 2 distinct values; (a') "
@@ -615,7 +700,8 @@ def run(ctx, replay=None):
                 "(b) event scripts on the real HyperbandScheduler(type=stopping|rush_stopping, searcher=random): grace "
                 "period / reduction factor in {2,3,4,2.5} / rung increment / explicit rung list, max_t <= 81, brackets "
                 "1..4 forced through scheduler.bracket_distribution, shared or per-bracket rung systems, 2..8 concurrent "
-                "trials with interleaved, occasionally skipped / repeated / late / unknown-trial reports, remove / "
+                "trials with interleaved, occasionally skipped / repeated / late / unknown-trial reports, dill round trips "
+                "of the scheduler (model: restore_state), remove / "
                 "complete / error calls; non-trivial = a script with a decision at a rung holding >= 2 entries; "
                 "distinct by content hash")
     rng = ctx.rng
@@ -634,6 +720,13 @@ def run(ctx, replay=None):
     else:
         lcases = []
     run_levels_cases(ctx, lcases)
+    if replay is None:
+        mcases = [gen_maxt_case(rng) for _ in range(ctx.n(300, 3000))]
+    elif replay.get("kind") == "maxt":
+        mcases = [replay]
+    else:
+        mcases = []
+    run_maxt_cases(ctx, mcases)
 
     # ---------------- sequences ----------------------------------------------------------------
     if replay is None:
@@ -662,6 +755,7 @@ def run(ctx, replay=None):
         ctx.count(("sequence", spec), nontrivial=res["n_nontrivial"] > 0)
         ctx.h("seq_type", spec["type"])
         ctx.h("seq_max_t_via", spec.get("max_t_via", "arg"))
+        ctx.h("seq_dill_round_trips", sum(1 for e in res["events"] if e["op"] == "restore"))
         ctx.h("seq_brackets", "%d%s" % (res["num_brackets"], "pb" if spec.get("per_bracket") else ""))
         ctx.h("seq_rf", spec.get("reduction_factor", "incr" if "rung_increment" in spec else "explicit"))
         ctx.h("seq_events", len(res["events"]) // 40 * 40)
@@ -674,6 +768,10 @@ def run(ctx, replay=None):
         tot_dec += res["n_nontrivial"]
         case = dict(kind="sequence", spec=spec, events=[{k: v for k, v in e.items()} for e in res["events"]])
         # rung levels: independent recomputation when the reduction factor is an integer
+        if res["impl_max_t"] != spec["max_t"]:
+            ctx.violation("property", "scheduler.max_t = %r, documented maximum resource %r (max_t argument %r, max_resource_attr %r, "
+                          "constants %r)" % (res["impl_max_t"], spec["max_t"], spec.get("max_t_arg"), spec.get("max_resource_attr"),
+                                             spec.get("space_consts")), case=case, signature=dict(check="max_t"))
         want_levels = U.expected_rung_levels(spec)
         if want_levels is not None and want_levels != res["levels"]:
             rf = spec.get("reduction_factor")
